@@ -117,4 +117,5 @@ MUTANTS += [
 
 MUTANTS += [
  {"id": "revert-F-C1", "props": ["C08"], "edits": [("pymtl3/dsl/NamedObject.py", "        if s.__dict__.get( name ) is obj:\n          return\n        fields = sd.NamedObject_fields", "        fields = sd.NamedObject_fields")]},
+ {"id": "revert-F-Y4", "props": ["C12"], "edits": [("pymtl3/passes/backends/yosys/translation/structural/YosysStructuralTranslatorL4.py", "        if obj is not None:\n          c_name = _subcomp_name( obj )\n", "")]},
 ]
